@@ -594,9 +594,11 @@ func (fc *FnCtx) doStore(x *ssa.Store) {
 		if p.Kind == PCell && len(p.Path) == 0 {
 			fc.assign(p.Var, fc.addrTerm(vv.P))
 			fc.env.places[p.Var] = vv.P
+			fc.assignAnchors(x)
 			return
 		}
 		fc.storePlace(p, fc.addrTerm(vv.P))
+		fc.assignAnchors(x)
 		return
 	}
 	if p.Kind == PCell && len(p.Path) == 0 {
